@@ -25,6 +25,6 @@ class DruidGenerator(generator.Generator):
     TRANSFORMS = {
         **generator.Generator.TRANSFORMS,
         exp.CurrentTimestamp: lambda *_: "CURRENT_TIMESTAMP",
-        exp.Mod: rename_func("MOD"),
+        exp.Mod: lambda self, e: self.func("MOD", *e.unnest_operands()),
         exp.Array: lambda self, e: f"ARRAY[{self.expressions(e)}]",
     }
